@@ -193,7 +193,30 @@ def check_symmetric(name, pname, sol, dims, key):
                     return
 
 
+def check_relgap(fn, pname, sol):
+    """documented definition of the relative gap, from the result's own
+    fields"""
+    g, rg = sol.get('gap'), sol.get('relative gap')
+    po, do = sol.get('primal objective'), sol.get('dual objective')
+    if g is None or po is None or do is None:
+        return
+    if po < 0.0:
+        want = g / -po
+    elif do > 0.0:
+        want = g / do
+    else:
+        want = None
+    ok = (want is None and rg is None) or (
+        want is not None and rg is not None and
+        abs(rg - want) <= 1e-9 * max(1.0, abs(want)))
+    if not ok:
+        fail('relgap-definition', "%s(%s): relative gap %r, but gap %r, "
+             "primal objective %r, dual objective %r give %r" % (
+                 fn, pname, rg, g, po, do, want))
+
+
 def check_conelp_result(pname, prob, sol, opts):
+    check_relgap('conelp', pname, sol)
     st = sol['status']
     feastol = opts.get('feastol', 1e-7)
     abstol = opts.get('abstol', 1e-7)
@@ -230,6 +253,7 @@ def check_conelp_result(pname, prob, sol, opts):
 
 
 def check_coneqp_result(pname, prob, sol, opts):
+    check_relgap('coneqp', pname, sol)
     st = sol['status']
     feastol = opts.get('feastol', 1e-7)
     abstol = opts.get('abstol', 1e-7)
@@ -486,8 +510,145 @@ def splits():
         fail('battery-error', 'socp split: %r' % e)
 
 
+def cpl_runs():
+    """a few convex programs through cp/cpl, stopped after 1..6 iterations
+    and at convergence: relative-gap definition of every returned result"""
+    from cvxopt import solvers, matrix, log, div, mul, spdiag, exp
+    solvers.options['show_progress'] = False
+
+    def acent():
+        # minimize -sum log(1 - x_i^2) - like objective with linear constr.
+        n = 3
+
+        def F(x=None, z=None):
+            if x is None:
+                return 0, matrix(0.0, (n, 1))
+            if max(abs(x)) >= 1.0:
+                return None
+            u = 1 - x**2
+            val = -sum(log(u))
+            Df = div(2 * x, u).T
+            if z is None:
+                return val, Df
+            H = spdiag(2 * z[0] * div(1 + u**2 - u**2 + x**2, u**2))
+            return val, Df, H
+        G = matrix([[1.0, -1.0], [1.0, 0.0], [0.5, 1.0]])
+        h = matrix([1.0, 2.0])
+        return dict(F=F, G=G, h=h)
+
+    def shifted(c0):
+        # minimize (x-c0)^2 subject to x >= 1: optimal value (1-c0)^2 or 0
+        def F(x=None, z=None):
+            if x is None:
+                return 0, matrix([3.0])
+            val = (x[0] - c0)**2
+            Df = matrix([[2 * (x[0] - c0)]])
+            if z is None:
+                return val, Df
+            return val, Df, matrix([[2.0 * z[0]]])
+        return dict(F=F, G=matrix([[-1.0]]), h=matrix([-1.0]))
+    probs = [('acent', acent()), ('shift2', shifted(2.0)),
+             ('shift0', shifted(0.0))]
+    for pname, pr in probs:
+        for mi in (1, 2, 3, 4, 6, 100):
+            try:
+                sol = solvers.cp(pr['F'], pr['G'], pr['h'],
+                                 options={'maxiters': mi,
+                                          'show_progress': False})
+            except ArithmeticError:
+                continue
+            except Exception as e:
+                fail('exception-type', 'cp(%s, maxiters=%d) raised %s: %s' %
+                     (pname, mi, type(e).__name__, e))
+                continue
+            check_relgap('cpl', '%s maxiters=%d' % (pname, mi), sol)
+    # a linear objective through cpl: c'x with a nonlinear constraint
+    def Fq(x=None, z=None):
+        if x is None:
+            return 1, matrix([0.0, 0.0])
+        f = matrix([x[0]**2 + x[1]**2 - 1.0])
+        Df = matrix([[2 * x[0]], [2 * x[1]]])
+        if z is None:
+            return f, Df
+        return f, Df, 2 * z[0] * matrix([[1.0, 0.0], [0.0, 1.0]])
+    for cvec in ([1.0, 1.0], [-1.0, 0.0], [0.0, 0.0]):
+        for mi in (1, 2, 3, 5, 100):
+            try:
+                sol = solvers.cpl(matrix(cvec), Fq,
+                                  options={'maxiters': mi,
+                                           'show_progress': False})
+            except ArithmeticError:
+                continue
+            except Exception as e:
+                fail('exception-type', 'cpl(%r, maxiters=%d) raised %s: %s'
+                     % (cvec, mi, type(e).__name__, e))
+                continue
+            check_relgap('cpl', 'disk %r maxiters=%d' % (cvec, mi), sol)
+
+
+def start_points():
+    """a start point outside the cone must be refused with ValueError, also
+    when it satisfies every other termination test"""
+    from cvxopt import solvers, matrix
+    solvers.options['show_progress'] = False
+    # coneqp: minimize (1/2)x'x - x1  s.t. x >= 0 (2 variables)
+    P = matrix([[1.0, 0.0], [0.0, 1.0]])
+    q = matrix([-1.0, 0.0])
+    G = -matrix([[1.0, 0.0], [0.0, 1.0]])
+    h = matrix([0.0, 0.0])
+    good = {'x': matrix([1.0, 1.0]), 's': matrix([1.0, 1.0]),
+            'z': matrix([1.0, 1.0])}
+    for key, bad in (('z', matrix([1.0, -0.5])), ('s', matrix([-1.0, 1.0])),
+                     ('z', matrix([0.0, 1.0]))):
+        iv = dict(good)
+        iv[key] = bad
+        try:
+            sol = solvers.coneqp(P, q, G, h, initvals=iv)
+            fail('start-point-validated', "coneqp(initvals['%s'] = %r) was "
+                 "accepted (status %s)" % (key, list(bad), sol['status']))
+        except ValueError:
+            pass
+        except Exception as e:
+            fail('exception-type', 'coneqp(bad initvals) raised %s' %
+                 type(e).__name__)
+    # a z outside the cone at a point that meets the other tests
+    iv = {'x': matrix([1.0, 0.5]), 's': matrix([1.0, 0.5]),
+          'z': matrix([0.0, -0.5])}
+    try:
+        sol = solvers.coneqp(P, matrix([-1.0, -1.0]), G, h, initvals=iv)
+        fail('start-point-validated', "coneqp(initvals z = [0,-0.5]) was "
+             "accepted (status %s)" % sol['status'])
+    except ValueError:
+        pass
+    c = matrix([1.0, 1.0])
+    for ps, ds in (({'x': matrix([1.0, 1.0]), 's': matrix([-1.0, 1.0])},
+                    None),
+                   (None, {'z': matrix([1.0, -1.0])}),
+                   ({'x': matrix([1.0, 1.0]), 's': matrix([1.0, 1.0])},
+                    {'z': matrix([0.0, 1.0])})):
+        try:
+            sol = solvers.conelp(c, G, h, primalstart=ps, dualstart=ds)
+            fail('start-point-validated', 'conelp(primalstart=%r, dualstart='
+                 '%r) was accepted' % (ps and list(ps['s']),
+                                       ds and list(ds['z'])))
+        except ValueError:
+            pass
+        except Exception as e:
+            fail('exception-type', 'conelp(bad start) raised %s' %
+                 type(e).__name__)
+
+
 def main():
     splits()
+    try:
+        start_points()
+    except Exception:
+        fail('battery-error', 'start points: ' +
+             traceback.format_exc()[-600:])
+    try:
+        cpl_runs()
+    except Exception:
+        fail('battery-error', 'cpl runs: ' + traceback.format_exc()[-600:])
     for pname, mk in CONELP:
         for eo in ({}, {'maxiters': 3}):
             run_conelp(pname, mk(), eo)
